@@ -1,6 +1,7 @@
 package props
 
 import (
+	"regexp"
 	"go/ast"
 	"go/types"
 	"strings"
@@ -501,6 +502,8 @@ func registryCleanup(c *engine.Ctx, id, rel string, min int) {
 	}
 }
 
+var sentRecordRe = regexp.MustCompile(`(Transaction|Proposal|Configuration):\*?([^,{}]*\.Value)[,}]`)
+
 // versionStamping: C15.8 — every record the store hands out carries the version (and log index) of
 // the primitive entry it was read from or written to.
 func versionStamping(c *engine.Ctx, id, rel string, indexed bool, min int) {
@@ -561,6 +564,11 @@ func versionStamping(c *engine.Ctx, id, rel string, indexed bool, min int) {
 					if strings.HasSuffix(stripHash(r), ".Value") {
 						check(i, r, "event")
 					}
+				}
+			case engine.EvSend:
+				// an event literal built in place inside the send
+				if m := sentRecordRe.FindStringSubmatch(e.RHS); m != nil {
+					check(i, m[2], "sent event")
 				}
 			case engine.EvCall:
 				if e.CalleeName == "append" && len(e.Args) == 2 && strings.HasSuffix(stripHash(strings.TrimPrefix(e.Args[1], "*")), ".Value") && p.Lit == nil && method == "List" {
